@@ -70,10 +70,10 @@ fn w_obs_list(w: &mut W, l: &[Obs], finished: bool) {
 
 /// std::io::Read over (stream, schedule): entry 0 = Interrupted, k > 0 = at most k bytes,
 /// exhausted schedule = as much as fits.  Ok(0) only at the true end.
-struct SchedSource {
-    data: Vec<u8>,
-    pos: usize,
-    sched: VecDeque<u64>,
+pub struct SchedSource {
+    pub data: Vec<u8>,
+    pub pos: usize,
+    pub sched: VecDeque<u64>,
 }
 impl SchedSource {
     fn grant(&mut self, buf_len: usize) -> Option<usize> {
